@@ -65,6 +65,9 @@ def run(ctx):
         # with or without opendir: the mode each layer runs in is the one negotiated for OPENDIR (C12.R5)
         from rules import c12
         ctx.run_rule("R5-toggles", c12.r5_toggles, F, json.load(open(c12.TABLE)))
+        # the directory reads and seeks are tested for failure the right way round (shared with C05.R4)
+        from rules import c05
+        ctx.run_rule("R4-error-conversion", c05.r4_errors, F, {"do_readdir", "lseek"})
     finally:
         vf.NOUPD[0] = False
         vf.NOCAST[0] = False
@@ -637,6 +640,18 @@ def r5_server(ctx, F):
 def r7_wrappers(ctx, F):
     rule = "R7-wrappers"
     n = 0
+    # the passthrough closures look an entry up under its complete name: the slice handed to CStr covers name.len() + 1 bytes (the
+    # terminating NUL do_readdir left in place); one byte less makes CStr drop the name's last character
+    for nm in ("readdir", "readdirplus"):
+        ms = [x for x in F.find(name=nm, self_adt=PFS) if x.trait == common.FS_TRAIT]
+        for cl in (F.closures_of(ms[0].key) if len(ms) == 1 else []):
+            cv = vf.VF(cl, inline_depth=0)
+            for c in live_calls(cl):
+                if c.name == "do_lookup":
+                    a = [R(x, cl, cv) for x in cv.call_args(c)]
+                    ctx.check(rule, "PassthroughFs::%s/lookup-name" % nm,
+                              a[1:] == ["^inode", "CStr::from_bytes_with_nul_unchecked(slice::from_raw_parts(dir_entry.name[], Add(1, impl [T]::len(dir_entry.name))))"],
+                              "PassthroughFs::%s looks the listed entry up as do_lookup(%s); required (the listed directory, the entry's name including its NUL: len + 1 bytes)" % (nm, ", ".join(a[1:])[:200]), loc=c.loc())
     for layer, adt in (("Vfs", VFS), ("PassthroughFs", PFS)):
         for nm in ("readdir", "readdirplus"):
             ms = [x for x in F.find(name=nm, self_adt=adt) if x.trait == common.FS_TRAIT]
